@@ -73,3 +73,22 @@ OVERLAYS += [
     {'name': 'loop form: consensus pre-filled without the tie test', 'kind': 'break', 'rules': ['C13-R1'],
      'edits': [(MOLECULE, VEC, scalar(extra="        consensus.update({k: 'ACGTN'[int(np.argmax(x))] for k, x in consensii.items()})\n"))]},
 ]
+
+
+def zipped(mask="(v == v.max(axis=1, keepdims=True)).sum(axis=1) == 1", pick="np.argmax(v, axis=1)"):
+    return f"""        sorted_locations = sorted(consensii)
+        v = np.vstack([consensii[location] for location in sorted_locations])
+        majority_base_indices = {pick}
+        untied = {mask}
+        consensus_calls = {{location: 'ACGTN'[idx] for location, idx, keep in zip(sorted_locations, majority_base_indices, untied) if keep}}
+        if with_probs_and_obs:
+            return consensus_calls, phred_scores, consensii
+        return consensus_calls
+"""
+
+
+OVERLAYS += [
+    {'name': 'keep: majority step as a dict comprehension over zip(locations, argmax, mask)', 'kind': 'keep', 'edits': [(MOLECULE, VEC, zipped())]},
+    {'name': 'zip form: mask keeps ties (>= 1)', 'kind': 'break', 'rules': ['C13-R1'], 'edits': [(MOLECULE, VEC, zipped(mask="(v == v.max(axis=1, keepdims=True)).sum(axis=1) >= 1"))]},
+    {'name': 'zip form: argmin picked', 'kind': 'break', 'rules': ['C13-R1'], 'edits': [(MOLECULE, VEC, zipped(pick="np.argmin(v, axis=1)"))]},
+]
